@@ -6,7 +6,7 @@ import z3
 
 from .values import V, NONE, VNone, VInt, VBool, VBytes, VStr, VList, VTuple, VDict, VObj, VEnum, VSeq, VTag, VLib, \
     VOpaque, VExc, PyRaise, OutOfSubset, VClass
-from .interp import Interp, World, Env, Infeasible, OldEnv
+from .interp import Interp, World, Env, Infeasible, OldEnv, PathEnd
 from .types import make_value, snapshot
 from . import clauses, smt
 
@@ -233,7 +233,10 @@ def run_path(c, decisions, contracts, world, cfg) -> PathResult:
             result = it.call_function(fi, [v for _, v in pos], kw, force_inline=True)
         except PyRaise as e:
             outcome, exc = "raise", e.exc.cls
-        pr.outcome = "return" if outcome == "return" else f"raise:{exc.__name__}"
+            pr.raised_where = f"{getattr(e.exc, 'where', '?')}: {getattr(e.exc, 'msg', '')}"
+        except PathEnd:
+            outcome = "cut"
+        pr.outcome = "return" if outcome == "return" else "loop-iteration-checked" if outcome == "cut" else f"raise:{exc.__name__}"
         ctx = Ctx(it, env, old_env, outcome, result, exc)
         env.set("result", result)
         # ---------------- obligations of this path ----------------
@@ -244,7 +247,9 @@ def run_path(c, decisions, contracts, world, cfg) -> PathResult:
             pr.obligations.append(("frame:no-global-state", "refuted", {"violations": sorted(set(it.frame_violations)), "counterexample": None, "no_model": True}))
         else:
             pr.obligations.append(("frame:no-global-state", "discharged", {"backend": "executor"}))
-        if outcome == "return":
+        if outcome == "cut":
+            pass
+        elif outcome == "return":
             for gname, gtype, gwit, _ in c.ghost_outs:
                 w = gwit(it, ctx)
                 if w is None:
@@ -266,6 +271,7 @@ def run_path(c, decisions, contracts, world, cfg) -> PathResult:
                 # the path is feasible (every branch was checked) -> this exception escapes: ask for a model
                 st, det = _check_goal(it, z3.BoolVal(False), f"raises:{exc.__name__}", inputs)
                 det["escaping_exception"] = exc.__name__
+                det["raised_at"] = getattr(pr, "raised_where", None)
                 pr.obligations.append(("raises", st, det))
             else:
                 pr.obligations.append(("raises", "discharged", {"backend": "executor"}))
@@ -289,7 +295,7 @@ def run_path(c, decisions, contracts, world, cfg) -> PathResult:
                     goal = z3.Not(_eval_old(it, rs.when, old_env, old_fs))
                     st, det = _check_goal(it, goal, f"must-raise:{rs.label}", inputs)
                     pr.obligations.append((f"must-raise:{rs.label}", st, det))
-        for label, fn in c.checks:
+        for label, fn in (c.checks if outcome != "cut" else []):
             try:
                 r = fn(it, ctx)
             except PyRaise as e:
